@@ -1,0 +1,77 @@
+//go:build verif
+
+package zap
+
+// Exported wrappers used only by the /verif harness (build tag `verif`).
+// This file adds no behaviour to the package.
+
+import (
+	"github.com/RoaringBitmap/roaring/v2"
+	index "github.com/blevesearch/bleve_index_api"
+	segment "github.com/blevesearch/scorch_segment_api/v2"
+)
+
+// VerifNew builds an in-memory segment with an explicit chunk mode.
+func VerifNew(results []index.Document, chunkMode uint32) (segment.Segment, uint64, error) {
+	return (&ZapPlugin{}).newWithChunkMode(results, chunkMode)
+}
+
+// VerifMerge merges with an explicit chunk mode.
+func VerifMerge(segments []segment.Segment, drops []*roaring.Bitmap, path string,
+	chunkMode uint32, closeCh chan struct{}, s segment.StatsReporter) ([][]uint64, uint64, error) {
+	segmentBases := make([]*SegmentBase, len(segments))
+	for i, sg := range segments {
+		switch x := sg.(type) {
+		case *Segment:
+			segmentBases[i] = &x.SegmentBase
+		case *SegmentBase:
+			segmentBases[i] = x
+		}
+	}
+	return mergeSegmentBases(segmentBases, drops, path, chunkMode, closeCh, s)
+}
+
+func VerifGetChunkSize(chunkMode uint32, cardinality uint64, maxDocs uint64) (uint64, error) {
+	return getChunkSize(chunkMode, cardinality, maxDocs)
+}
+func VerifEncodeFreqHasLocs(freq uint64, hasLocs bool) uint64 { return encodeFreqHasLocs(freq, hasLocs) }
+func VerifDecodeFreqHasLocs(v uint64) (uint64, bool)          { return decodeFreqHasLocs(v) }
+func VerifNumUvarintBytes(x uint64) int                       { return numUvarintBytes(x) }
+func VerifUnder32Bits(x uint64) bool                          { return under32Bits(x) }
+func VerifEncodeSynonym(synonymID uint32, docID uint32) uint64 {
+	return encodeSynonym(synonymID, docID)
+}
+func VerifDecodeSynonym(code uint64) (uint32, uint32) { return decodeSynonym(code) }
+func VerifModifyLengthsToEndOffsets(lengths []uint64) []uint64 {
+	return modifyLengthsToEndOffsets(lengths)
+}
+func VerifReadChunkBoundary(chunk int, offsets []uint64) (uint64, uint64) {
+	return readChunkBoundary(chunk, offsets)
+}
+
+// VerifPoolProbe draws two scratch objects from the stored-field visit pool
+// and reports whether the pool handed out the same object twice.
+func VerifPoolProbe() bool {
+	a := visitDocumentCtxPool.Get().(*visitDocumentCtx)
+	b := visitDocumentCtxPool.Get().(*visitDocumentCtx)
+	same := a == b
+	visitDocumentCtxPool.Put(a)
+	if !same {
+		visitDocumentCtxPool.Put(b)
+	}
+	return same
+}
+
+// VerifMem returns the in-memory image and the offsets every query depends on.
+func VerifMem(sb *SegmentBase) (mem []byte, memCRC uint32, chunkMode uint32, numDocs, storedIndexOffset, sectionsIndexOffset uint64) {
+	return sb.mem, sb.memCRC, sb.chunkMode, sb.numDocs, sb.storedIndexOffset, sb.sectionsIndexOffset
+}
+
+// VerifSectionNames lists the section types compiled in.
+func VerifSections() []uint16 {
+	var rv []uint16
+	for k := range segmentSections {
+		rv = append(rv, k)
+	}
+	return rv
+}
